@@ -668,6 +668,33 @@ func treeDocs(c *Ctx) (pool [][]byte, cl []string) {
 		add([]byte(fmt.Sprintf(`[%s,{},%s,{"a":1},%s,[],%s]`, wide.String(), narrow.String(), wide.String(), narrow.String())), "siblings")
 		add([]byte(fmt.Sprintf(`{"a":{},"b":%s,"c":{},"d":%s,"e":[]}`, wide.String(), narrow.String())), "siblings")
 	}
+	// every small container length (and the lengths around powers of two), followed by a different, shorter sibling read
+	// by the same pooled reader: a result that still points into a reader's scratch space is overwritten by the sibling
+	var lens []int
+	for n := 0; n <= 40; n++ {
+		lens = append(lens, n)
+	}
+	for _, n := range []int{63, 64, 65, 127, 128, 129, 255, 256, 257, 511, 512, 513, 1023, 1024, 1025} {
+		lens = append(lens, n)
+	}
+	for _, n := range lens {
+		var arr, obj strings.Builder
+		arr.WriteString("[")
+		obj.WriteString("{")
+		for i := 0; i < n; i++ {
+			if i > 0 {
+				arr.WriteString(",")
+				obj.WriteString(",")
+			}
+			fmt.Fprintf(&arr, "%d", i+1)
+			fmt.Fprintf(&obj, `"m%d":%d`, i, i+1)
+		}
+		arr.WriteString("]")
+		obj.WriteString("}")
+		add([]byte(fmt.Sprintf(`[%s,["x","y"],%s,{"z":true}]`, arr.String(), obj.String())), "length-sweep")
+		add([]byte(fmt.Sprintf(`{"a":%s,"b":["x"],"c":%s,"d":{"q":null,"r":"s"}}`, arr.String(), obj.String())), "length-sweep")
+		add([]byte(fmt.Sprintf(`[[%s,[false]],[%s,{"k":[]}]]`, arr.String(), obj.String())), "length-sweep")
+	}
 	for _, s := range []string{`null`, ` null`, `[]`, `{}`, ` [ ] `, ` { } `, `[null]`, `{"a":null}`, `1`, `"x"`, `true`, ``, ` `, `[`, `{`, `]`, `[1,]`, `{"a"}`, `{"a":}`, `{,}`, `[,]`, `nul`, `[1e999]`, `{"a":1e999}`, `[-]`, `["\ud800"]`, `{"\udc00":1}`} {
 		add([]byte(s), "shape")
 	}
@@ -697,7 +724,7 @@ func init() {
 				}
 			}
 			// encoding/json on valid-UTF-8, collision-free documents
-			if cl[i] == "doc" || cl[i] == "dup-keys" || cl[i] == "siblings" {
+			if cl[i] == "doc" || cl[i] == "dup-keys" || cl[i] == "siblings" || cl[i] == "length-sweep" {
 				s.Evaluations++
 				v, p, err := rjson.ReadValue(exact(d))
 				var jv interface{}
